@@ -20,6 +20,63 @@ pub struct GenParams {
     pub sample: u64,
     pub max_n: usize,
     pub hooks: bool,
+    /// restrict option sets: "" | try | int | limit | eager | conflict | stream
+    pub focus: String,
+}
+
+fn focus_ok(c: &RunCfg, focus: &str) -> bool {
+    let concurrent = c.api.ends_with("for_each");
+    match focus {
+        "try" => c.is_try(),
+        "int" => c.has_channel(),
+        "limit" => (concurrent && c.limit >= 1) || c.api.ends_with("fold"),
+        "eager" => concurrent && c.limit <= 0,
+        "conflict" => concurrent || c.is_stream(),
+        "stream" => c.is_stream(),
+        _ => true,
+    }
+}
+
+/// Appends, for every run of a multi-run scenario, the same run executed alone on a freshly
+/// built graph (same driver steps), bracketed by fresh_begin / fresh_end. TLC compares.
+fn append_fresh(scn: &Scenario, trace: &mut Vec<Value>, mode: &str) {
+    let (runs, steps) = match scn.phases.last() {
+        Some(Phase::Runs { runs, steps }) => (runs.clone(), steps.clone()),
+        _ => return,
+    };
+    if trace.iter().any(|v| v["ev"] == "panic" || v["ev"] == "diverged") {
+        return;
+    }
+    let mut first = true;
+    for r in 1..=runs.len() {
+        let mine: Vec<crate::scenario::Step> = steps
+            .iter()
+            .filter_map(|st| {
+                use crate::scenario::Step::*;
+                Some(match st {
+                    Call { run } if *run == r => Call { run: 1 },
+                    Open { run, f, ok, defer } if *run == r => Open { run: 1, f: *f, ok: *ok, defer: *defer },
+                    Signal { run, defer } if *run == r => Signal { run: 1, defer: *defer },
+                    Poll { run } if *run == r => Poll { run: 1 },
+                    Drop { run, f } if *run == r => Drop { run: 1, f: *f },
+                    DropStream { run } if *run == r => DropStream { run: 1 },
+                    Abort { run } if *run == r => Abort { run: 1 },
+                    _ => return None,
+                })
+            })
+            .collect();
+        if mine.is_empty() {
+            continue;
+        }
+        let mut solo = scn.clone();
+        solo.phases = vec![Phase::Runs { runs: vec![runs[r - 1].clone()], steps: mine }];
+        let res = run_scenario(&solo, false, &ExploreOpts::default());
+        trace.push(serde_json::json!({"ev":"fresh_begin","of":r,"first":first,"mode":mode}));
+        first = false;
+        let from = res.trace.iter().position(|v| v["ev"] == "call").unwrap_or(res.trace.len());
+        trace.extend(res.trace[from..].iter().cloned());
+        trace.push(serde_json::json!({"ev":"fresh_end","of":r}));
+    }
 }
 
 fn mix(a: u64, b: u64) -> u64 {
@@ -616,6 +673,9 @@ pub fn generate(p: &GenParams, out: &mut Out) {
                         }
                         let (reads, writes) = access_of(n, 1, code);
                         for (ci, c) in cfgs.iter().enumerate() {
+                            if !focus_ok(c, &p.focus) || (p.focus == "conflict" && code == 0 && n > 1) {
+                                continue;
+                            }
                             if !sel.take() {
                                 continue;
                             }
@@ -640,7 +700,14 @@ pub fn generate(p: &GenParams, out: &mut Out) {
                 let types = 1 + rng.below(3);
                 let none = *rng.pick(&[30u64, 60, 90, 100]);
                 let (reads, writes) = random_access(&mut rng, n, types, none);
-                let c = random_cfg(&mut rng, false);
+                let mut c = random_cfg(&mut rng, false);
+                for _ in 0..64 {
+                    if focus_ok(&c, &p.focus) {
+                        break;
+                    }
+                    c = random_cfg(&mut rng, false);
+                }
+                let (reads, writes) = if p.focus == "conflict" { random_access(&mut rng, n, types, 30) } else { (reads, writes) };
                 let mut x = xopts_for(&c, rng.below(4));
                 x.defer = rng.chance(1, 2);
                 let sub = rng.next();
@@ -685,7 +752,7 @@ pub fn generate(p: &GenParams, out: &mut Out) {
                         }
                     }
                 }
-                let streams = rng.chance(1, 4);
+                let streams = p.focus == "stream" || rng.chance(1, 4);
                 let mut c = random_cfg(&mut rng, streams);
                 if !streams && rng.chance(2, 3) {
                     c.strategy = "none".into();
@@ -721,6 +788,9 @@ pub fn generate(p: &GenParams, out: &mut Out) {
                         }
                         let (reads, writes) = access_of(n, 1, code);
                         for (ci, c) in cfgs.iter().enumerate() {
+                            if !focus_ok(c, &p.focus) {
+                                continue;
+                            }
                             for ds in [false, true] {
                                 if ds && !(thorough || n <= 2) {
                                     continue;
@@ -748,7 +818,13 @@ pub fn generate(p: &GenParams, out: &mut Out) {
                 let e = random_dag(&mut rng, n, dens, false);
                 let none = *rng.pick(&[50u64, 80, 100]);
                 let (reads, writes) = random_access(&mut rng, n, 2, none);
-                let c = random_cfg(&mut rng, true);
+                let mut c = random_cfg(&mut rng, true);
+                for _ in 0..64 {
+                    if focus_ok(&c, &p.focus) {
+                        break;
+                    }
+                    c = random_cfg(&mut rng, true);
+                }
                 let x = ExploreOpts { drop_stream: rng.chance(1, 3), ..Default::default() };
                 let sub = rng.next();
                 if !sel.take() {
@@ -794,7 +870,7 @@ pub fn generate(p: &GenParams, out: &mut Out) {
                     overlap,
                     drop_stream: true,
                     spurious_polls: false,
-                    defer: rng.chance(1, 3),
+                    defer: !overlap && rng.chance(1, 3),
                 };
                 let sub = rng.next();
                 if !sel.take() {
@@ -808,13 +884,14 @@ pub fn generate(p: &GenParams, out: &mut Out) {
                 if let Some(f) = trace.first_mut() {
                     f["scn"] = Value::String(scn.id.clone());
                 }
+                append_fresh(&scn, &mut trace, if overlap { "overlap" } else { "seq" });
                 emit(&scn, &trace);
             }
         }
         // Exhaustive two-run histories on tiny graphs.
         "multi_exh" => {
             let max_n = if p.max_n > 0 { p.max_n } else { 2 };
-            let overlap_modes: &[bool] = &[false, true];
+            let overlap_modes: &[bool] = if p.focus == "overlap" { &[true] } else if p.focus == "seq" { &[false] } else { &[false, true] };
             let pool: Vec<RunCfg> = {
                 let mut v = Vec::new();
                 let all = call_cfgs(false);
@@ -848,7 +925,13 @@ pub fn generate(p: &GenParams, out: &mut Out) {
                                     spurious_polls: false,
                                     defer: false,
                                 };
-                                exhaustive(&s, &x, p.hooks, 40, 3000, &mut emit);
+                                let mode = if overlap { "overlap" } else { "seq" };
+                                let mut emit2 = |sc: &Scenario, t: &[Value]| {
+                                    let mut t = t.to_vec();
+                                    append_fresh(sc, &mut t, mode);
+                                    emit(sc, &t);
+                                };
+                                exhaustive(&s, &x, p.hooks, 40, 3000, &mut emit2);
                             }
                         }
                     }
